@@ -984,12 +984,24 @@ class TaskGroup(abc.TaskGroup):
         # scope here.
         try:
             await future
-        except BaseException:
+        except BaseException as exc:
             if handle.status is TaskHandle.Status.PENDING:
                 # Cancel the task and wait for it to exit before returning
                 handle.cancel()
                 with CancelScope(shield=True):
                     await handle.wait()
+
+            # If this task was cancelled natively after the child task had already
+            # failed, asyncio replaced the child's exception (which was on its way to
+            # us through the future) with a CancelledError. Raise the child's exception
+            # as promised instead of letting it vanish.
+            if (
+                isinstance(exc, CancelledError)
+                and future.done()
+                and not future.cancelled()
+                and (child_exc := future.exception()) is not None
+            ):
+                raise child_exc from None
 
             raise
 
